@@ -105,9 +105,11 @@ def run(ctx):
             dirs = dirs[::-1].copy()
         elif order == "rolled":
             dirs = np.roll(dirs, nd // 3)
-        s_int = {10: 50, 25: 10, 40: 4}[int(dspr)]
-        exact = s_int + 1 < nd
-        spr = exact_spread(s_int) if exact else dspr
+        # spread classes: integer cos^2s exponents 50, 10, 4, 1 (57.3 deg) and 0 (81.03 deg: the uniform spreading, the broadest there
+        # is; its mean direction is undefined), and 66 deg, a broad spreading with a non-integer exponent below one
+        s_int = {10: 50, 25: 10, 40: 4, 57: 1, 66: None, 81: 0}[int(dspr)]
+        exact = s_int is not None and s_int + 1 < nd
+        spr = exact_spread(s_int) if exact else (dspr if s_int is None else exact_spread(s_int))
         key2 = dict(key, dir_order=order, exact_quadrature=exact)
         try:
             G = cartwright(dir=dirs, dm=P(dm), dspr=P(spr))
@@ -144,12 +146,13 @@ def run(ctx):
             mdm = np.asarray(two.spec.dm().values, float)
             mds = np.asarray(two.spec.dspr().values, float)
             tol_dm, tol_ds = (1e-6, 1e-6) if exact else (0.05, 0.02 * spr)
-            resolved = exact or dd <= spr / 2.5          # an under-resolved spreading cannot reproduce its parameters
+            # an under-resolved spreading cannot reproduce its parameters (a broad one has a kink opposite the mean direction: 24 bins)
+            resolved = exact or (dd <= spr / 2.5 and (dspr < 50 or nd >= 24))
             if not resolved:
                 mdm, mds = np.array([dm]), np.array([spr])
                 ctx.notes["under_resolved_spreads_not_compared"] = ctx.notes.get("under_resolved_spreads_not_compared", 0) + 1
-            if not np.all(np.abs((mdm - dm + 180.0) % 360.0 - 180.0) <= tol_dm):
-                probs.append(("measured-dm", "measured dm %s, requested %g (n=%d, s=%s)" % (mdm, dm, nd, s_int if exact else "non-integer")))
+            if s_int != 0 and not np.all(np.abs((mdm - dm + 180.0) % 360.0 - 180.0) <= tol_dm):
+                probs.append(("measured-dm", "measured dm %s, requested %g (n=%d, s=%s)" % (mdm, dm, nd, s_int if exact else "not exact")))
             if not np.allclose(mds, spr, rtol=0, atol=tol_ds):
                 probs.append(("measured-dspr", "measured dspr %s, requested %g (n=%d)" % (mds, spr, nd)))
             if ctx.rng.random() < 0.15 and not xd and shape != "gaussian":
